@@ -120,6 +120,9 @@ def run_shard(sh, ctx):
 		cores = rng.choice([None, 1, 4])
 		if cores:
 			args += ['-c', cores]
+		if rnd % 3 == 1:
+			cf, *_ = clidrv.run_inproc(['tree', '--no-progress', '-k', 3, '-p', 'A', G.items[0]['path'], G.items[-1]['path']])   # rejected parameters
+			ctx.count('failing_commands_interleaved', int(cf != 0))
 		code, so, se, exc = clidrv.run_inproc(args)
 		m = len(idx)
 		if sigs_override is not None:
